@@ -84,6 +84,15 @@ SHAPES = {
                     raise ValueError()''')),
         ('ACounterRead', 'saved_index = self._next_index'),
         ('ACacheInsert', 'self._trajectories[saved_index] = trajectory'),
+        # fix FC07b: a file-backed store writes what does not fit its cache without caching it
+        ('ACacheInsertIfItFits', T('''
+            if self.base_file is None or trajectory.nbytes <= self._trajectories.maxsize:
+                self._trajectories[saved_index] = trajectory''')),
+        ('AFileCreateFromThisTrajectory', T('''
+            if self._file_creation_pending:
+                self._create(trajectory)
+                self._file_creation_pending = False''')),
+        ('AWriteThisTrajectory', 'self._write_data(traj=trajectory, index=saved_index)'),
         ('ACounterBump', 'self._next_index += 1'),
         ('AIndexableAssign', T('''
             if self.indexable is None:
@@ -482,6 +491,9 @@ def extract_store_protocol(path: Path):
         'C08a': has('_open', 'OIndexableIffIndexGroup'),
         'C09a': has('_check_merge_arguments', 'CRefuseSharedFileNames'),
         'C10a': before('add', 'AFieldsetsAgainstFiles', 'ACounterRead'),
+        'C07a': has('_load_trajectory', 'TCacheIfItFits') and has('__getitem__', 'GReturnLoaded'),
+        'C07b': has('add', 'ACacheInsertIfItFits') and has('add', 'AFileCreateFromThisTrajectory')
+        and has('add', 'AWriteThisTrajectory'),
     }
     b = lambda x: 'true' if x else 'false'  # noqa: E731
     lines = ['(* generated by translator/store_extract.py from src/AEIC/trajectories/store.py — do not edit *)',
@@ -508,5 +520,6 @@ def extract_store_protocol(path: Path):
     for k, v in facts.items():
         lines.append(f'Definition {k} : size_index_shape := {v}.')
     lines.append('Definition extracted_cfg : cfg := mkCfg ' + ' '.join(b(cfg[k]) for k in
-                                                                      ('F5', 'F6', 'F7', 'F8', 'C08a', 'C09a', 'C10a')) + '.')
+                                                                      ('F5', 'F6', 'F7', 'F8', 'C08a', 'C09a', 'C10a', 'C07a', 'C07b')) + '.')
+    status['__cfg__'] = cfg
     return '\n'.join(lines) + '\n', status
